@@ -69,7 +69,7 @@ static void out_ill(void) { char b[32]; snprintf(b, sizeof b, "i%d", g_illegal);
 
 /* ---------- arguments ---------- */
 typedef struct { char *s; unsigned char *b; size_t n; int is_hex; int is_null; } arg_t;
-#define MAXARGS 4096
+#define MAXARGS 65536
 static __thread arg_t *g_args = NULL;
 static __thread int g_argc;
 
@@ -244,6 +244,10 @@ static char *dispatch_line(char *line) {
     op = tok;
     if (op[0] == '#') { free(args); g_args = NULL; return strdup(op); }
     while ((tok = strtok_r(NULL, " ", &save)) != NULL && g_argc < MAXARGS) { g_args[g_argc].s = tok; arg_decode(&g_args[g_argc]); g_argc++; }
+    if (tok != NULL) {   /* more tokens than the harness can hold: never run the operation on a silently truncated line */
+        int k; for (k = 0; k < g_argc; k++) free(args[k].b);
+        free(args); g_args = NULL; return strdup("ERR too-many-args");
+    }
     for (i = 0; g_families[i]; i++) { rc = g_families[i](op); if (rc != 0) break; }
     if (rc == 0) { res = (char*)malloc(strlen(op) + 32); sprintf(res, "ERR unknown-op %s", op); }
     else if (rc < 0) { res = (char*)malloc(strlen(op) + 32); sprintf(res, "ERR bad-args %s", op); }
